@@ -10,7 +10,7 @@ CHECK = {'pkg': '.',
  'rule': 'part bodies: for each of the 159 (type, version) pairs of the table (74 protocolBody types that need no raw sections, every version '
          '0..max each implements, plus ConsumerGroupMemberMetadata/Assignment, StickyAssignorUserDataV0/V1, request header via request.decode, '
          'responseHeader v0/v1) the body\'s own decode() runs against a generating decoder whose getters return drawn values (boundary integers, '
-         'collection lengths 0..3, empty/multi-byte/long strings, nullable variants, varints at 7-bit boundaries, values read at one call site '
+         'collection lengths 0..3 (one compact collection per value in ten: 126..128, the uvarint boundary of its length prefix), empty/multi-byte/long strings, nullable variants, varints at 7-bit boundaries, values read at one call site '
          'pairwise distinct) and log the reference encoding written by the harness\'s own primitive writer (R) plus a field log. Oracles: O2 the '
          'real decoder over R consumes everything and yields an equal value; O1 encode succeeds, len(b1)==len(R), decode(b1) into a zero value '
          'equals x (version recorded), re-encode byte-identical when no map has >1 entry, else same length and equal decode; b1==R is only '
